@@ -1,10 +1,76 @@
-import RgVerif.Model.Sx
+import RgVerif.Model.LineBuffer
 namespace RgVerif.Driver.C02
-open RgVerif
+open RgVerif RgVerif.LineBuffer
 
-/-- Request handler of property C02: `cmd` is the first token of the line, `args` the rest. -/
+/-- `(cfg <capacity> <lineterm> <e|limit> (bin none|quit b|convert b))` -/
+def parseCfg : Sx → Option Config
+  | .list [.atom "cfg", cap, lt, al, .list (.atom "bin" :: b)] => do
+    let cap ← cap.nat?
+    let lt ← lt.nat?
+    let al ← match al with
+      | .atom "e" => some Alloc.eager
+      | x => (x.nat?).map Alloc.error
+    let b ← match b with
+      | [.atom "none"] => some BinDet.none
+      | [.atom "quit", x] => (x.nat?).map BinDet.quit
+      | [.atom "convert", x] => (x.nat?).map BinDet.convert
+      | _ => none
+    pure ⟨cap, lt, al, b⟩
+  | _ => none
+
+/-- `(script 3 1 i 7)`; `i` is an `Interrupted` error. -/
+def parseScript : Sx → Option (List Step)
+  | .list (.atom "script" :: xs) =>
+    xs.mapM fun x =>
+      match x with
+      | .atom "i" => some Step.intr
+      | x => (x.nat?).map Step.ret
+  | _ => none
+
+/-- `(ops f c3 f)` -/
+def parseOps : Sx → Option (List Op)
+  | .list (.atom "ops" :: xs) =>
+    xs.mapM fun x =>
+      match x with
+      | .atom "f" => some Op.fill
+      | .atom s =>
+        match s.toList with
+        | 'c' :: ds => (String.ofList ds).toNat?.map Op.consume
+        | _ => none
+      | _ => none
+  | _ => none
+
+def showRes : FillRes → String
+  | .ok true => "t"
+  | .ok false => "f"
+  | .allocErr => "ealloc"
+  | .fuel => "fuel"
+
+def showState (s : LB) : String :=
+  s!"{s.abs} {optNat s.binOff} {toHex s.buffer} {s.len}"
+
+/-- Transcript of an op sequence: one `res abs bin buffer allocated` entry per op. -/
+def transcript : LB → Reader → List Op → List String
+  | _, _, [] => []
+  | s, r, .fill :: ops =>
+    let (s, r, res) := s.fill r
+    (showRes res ++ " " ++ showState s) :: transcript s r ops
+  | s, r, .consume n :: ops =>
+    match s.consume n with
+    | some s => ("c " ++ showState s) :: transcript s r ops
+    | none => ["panic"]
+
 def handle (cmd : String) (args : List Sx) : String :=
   match cmd, args with
+  | "c02.lb", [cfg, inp, script, ops] =>
+    match parseCfg cfg, inp.bytes?, parseScript script, parseOps ops with
+    | some cfg, some inp, some script, some ops =>
+      ";".intercalate (transcript (LB.init cfg) ⟨inp, script⟩ ops)
+    | _, _, _, _ => "bad-op"
+  | "c02.spec", [cfg, inp, a, n] =>
+    match parseCfg cfg, inp.bytes?, a.nat?, n.nat? with
+    | some cfg, some inp, some a, some n => toHex (window (view cfg inp) a n)
+    | _, _, _, _ => "bad-op"
   | _, _ => "bad-op"
 
 end RgVerif.Driver.C02
